@@ -638,6 +638,7 @@ type runner struct {
 	threads []*thread
 	pre     map[uint64]bool // goroutines that existed before the scenario
 	cfg     map[string]interface{}
+	restart bool // the direct threads get their ids, then the processor is stopped and started again (the CLI's reload) before anybody runs
 }
 
 func goroutineSet() map[uint64]bool {
@@ -778,6 +779,23 @@ func (rn *runner) run(p *program, startDelay func(i int)) (outcome string) {
 			asts[i] = ast
 		}
 	}
+	// a long-lived directly evaluating thread keeps the id it got before the
+	// processor was stopped and started again; the workers of the restarted
+	// pool must not be given that id
+	earlyIDs := make([]uint64, len(rn.threads))
+	if rn.restart {
+		// stopped processor - ids for the direct threads - start - stop - start
+		rn.env.Finish()
+		for i, t := range rn.threads {
+			if !t.sink {
+				earlyIDs[i] = rn.env.Erp.NewThreadID()
+			}
+		}
+		rn.env.Start()
+		rn.env.Finish()
+		rn.env.Start()
+		c.Event("scenarios.with-processor-restart-after-thread-ids", 1)
+	}
 	for i, t := range rn.threads {
 		wg.Add(1)
 		go func(i int, t *thread) {
@@ -808,7 +826,10 @@ func (rn *runner) run(p *program, startDelay func(i int)) (outcome string) {
 				return
 			}
 			tvs := scope.NewScopeWithParent(fmt.Sprintf("thread%d", i), rn.env.VS)
-			tid := rn.env.Erp.NewThreadID()
+			tid := earlyIDs[i]
+			if tid == 0 {
+				tid = rn.env.Erp.NewThreadID()
+			}
 			directIDsMu.Lock()
 			directIDs = append(directIDs, tid)
 			directIDsMu.Unlock()
@@ -1001,7 +1022,8 @@ func randomScenario(c *core.Ctx, stream string, idx int) {
 	defer env.Close()
 	cur.Store(m)
 	env.Start()
-	rn := &runner{c: c, stream: stream, idx: idx, env: env, m: m, threads: threads, pre: pre, cfg: cfg}
+	rn := &runner{c: c, stream: stream, idx: idx, env: env, m: m, threads: threads, pre: pre, cfg: cfg, restart: idx%4 == 3}
+	cfg["restart"] = rn.restart
 	jitter := r.U64()
 	outcome := rn.run(p, func(i int) {
 		if x := mix(jitter ^ uint64(i)); x%3 == 0 {
@@ -1225,7 +1247,7 @@ func indepScenario(c *core.Ctx, stream string, idx int) {
 
 // Run is the check.
 func Run(c *core.Ctx) {
-	c.Note("rule", "random stream: per index a generated program (3..7 units = nests of 1..3 `mutex` blocks over names {m1,m2,m3}; a new name is always ranked above every name held, a held name may be re-entered; one exit kind per unit out of {normal, raise caught outside the blocks left, raise escaping the thread, return, break, continue}, fired at a chosen iteration from nesting level exitLevel through to the handler placed outside level catchLevel; optional helper function called inside a block that enters held or higher names and leaves by normal/return/raise; counters c1..c3 incremented only inside blocks of their name, half of them as `c := c + v.one()` with a yielding Go function) run by 2..16 threads = sinks on 2..8 workers (event per thread, some with the blocks inline in the sink body) plus direct Eval goroutines with ids from NewThreadID(); tids stream: 2..16 goroutines leave a barrier and draw 200..3000 thread ids each from NewThreadID (half of the cases while the processor starts its workers), all ids must be distinct; fresh stream: 2..8 threads leave a barrier together and enter a block of a name nobody entered before, 16..32 new names per scenario, a Go function inside the block counts the occupants; exit stream: all 6 exit kinds x depth 1..3, thread B enters every name thread A left; indep stream: all ordered pairs of different names x sink/direct threads, A holds one name until B was seen inside the other. One evaluation = one thread program executed. Non-trivial = a random scenario (distinct program text and thread layout) in which the monitor saw at least one attempt on a name held by another thread; a distinct (exit kind, depth, catch level, names) case in which the later entrant got in; an independence case with the overlap observed. Excluded by generation: thread id 0, programs that can deadlock by themselves (names are taken in one global order), try/except between a break/continue/return and the construct that consumes it, block scopes shared between direct threads (every direct thread evaluates in its own child scope of the global scope).")
+	c.Note("rule", "random stream: per index a generated program (3..7 units = nests of 1..3 `mutex` blocks over names {m1,m2,m3}; a new name is always ranked above every name held, a held name may be re-entered; one exit kind per unit out of {normal, raise caught outside the blocks left, raise escaping the thread, return, break, continue}, fired at a chosen iteration from nesting level exitLevel through to the handler placed outside level catchLevel; optional helper function called inside a block that enters held or higher names and leaves by normal/return/raise; counters c1..c3 incremented only inside blocks of their name, half of them as `c := c + v.one()` with a yielding Go function) run by 2..16 threads = sinks on 2..8 workers (event per thread, some with the blocks inline in the sink body) plus direct Eval goroutines with ids from NewThreadID() (every fourth scenario: the ids are drawn first, then the processor is finished and started again before anybody runs); tids stream: 2..16 goroutines leave a barrier and draw 200..3000 thread ids each from NewThreadID (half of the cases while the processor starts its workers), all ids must be distinct; fresh stream: 2..8 threads leave a barrier together and enter a block of a name nobody entered before, 16..32 new names per scenario, a Go function inside the block counts the occupants; exit stream: all 6 exit kinds x depth 1..3, thread B enters every name thread A left; indep stream: all ordered pairs of different names x sink/direct threads, A holds one name until B was seen inside the other. One evaluation = one thread program executed. Non-trivial = a random scenario (distinct program text and thread layout) in which the monitor saw at least one attempt on a name held by another thread; a distinct (exit kind, depth, catch level, names) case in which the later entrant got in; an independence case with the overlap observed. Excluded by generation: thread id 0, programs that can deadlock by themselves (names are taken in one global order), try/except between a break/continue/return and the construct that consumes it, block scopes shared between direct threads (every direct thread evaluates in its own child scope of the global scope).")
 	setup()
 	nExit := c.Pick(216, 1440)
 	nIndep := c.Pick(72, 240)
